@@ -268,6 +268,8 @@ package node
 //@       && mapdom(*cr.Dbg, len(*cr.CS)-1) && (*cr.Dbg)[len(*cr.CS)-1].ArgCnt == len(c.Arguments.Elems)   // C19: the report finds the callee's name and argument count under the return address the VM saves (the address of the CALL)
 //@   assumes[unfold] isNamer(c.Name) && wfAST(c.Name) && (forall k :: 0 <= k && k < len(c.Arguments.Elems) ==> exprOK(c.Arguments.Elems[k]))
 //@   loop 0 invariant[args] -1 <= rangeindex && emitInvT(cr, fl.Data().ForbidTemp)
+//@   loop 0 invariant[no_argument_skipped;C01,C05,C12] forall k :: 0 <= k && k <= rangeindex && k < len(c.Arguments.Elems) ==> compiledG(c.Arguments.Elems[k])
+//@   ensures[operands_compiled;C01,C05,C12] compiledG(c.Name) && (forall k :: 0 <= k && k < len(c.Arguments.Elems) ==> compiledG(c.Arguments.Elems[k]))   // every argument and the callee are compiled
 //@ pred isIntOne(n Type) bool := dyntype(n) == typeid[Int]() && n.(Int) == 1
 //@ func (Assign).byteCode [C05,C12,C04,C11] implements ByteCoder.byteCode
 //@   atcall bytecode.New(bytecode.INC) with (callee_op bytecode.OpCode) requires[inc_only_for_self_plus_one;C12,C01,C04,C11] dyntype(a.Value) == typeid[BinOp]() && a.Value.(BinOp).Op == "+"
@@ -549,6 +551,11 @@ package node
 //@   modifies *
 //@   ensures[no_data_with_error;C16] result1 != nil ==> result0 == ""
 //@ func (FReader).read [C16] implements lineReader.read
+// A line is what bufio's ReadString returns: a string of its own holding the whole line however long it is. The reader's
+// other line methods have a different contract (ReadSlice / ReadLine return a view into the reader's buffer that the next
+// read overwrites, and give up on a line longer than the buffer), which the statement assembler cannot live with.
+//@   forbid .ReadSlice( [whole_lines_in_their_own_storage;C16,C10]
+//@   forbid .ReadLine( [whole_lines_in_their_own_storage;C16,C10]
 //
 //@ canary func (Name).Name
 //@   ensures false
